@@ -43,6 +43,7 @@ const (
 	zzStepChunkEOF        // last data together with io.EOF (a Reader may do that)
 	zzStepStall           // the backend stops sending: Read blocks until the body is closed / request cancelled
 	zzStepReset           // connection reset mid-body
+	zzStepTruncated       // the connection is closed before the declared end of the body (io.ErrUnexpectedEOF)
 	zzNumSteps
 )
 
@@ -62,6 +63,9 @@ type zzTimeoutErr struct{}
 func (zzTimeoutErr) Error() string   { return "i/o timeout" }
 func (zzTimeoutErr) Timeout() bool   { return true }
 func (zzTimeoutErr) Temporary() bool { return true }
+
+// net's own timeout error matches context.DeadlineExceeded (net.timeoutError.Is)
+func (zzTimeoutErr) Is(err error) bool { return err == context.DeadlineExceeded }
 
 func zzFaultErr(k int) error {
 	switch k {
@@ -185,7 +189,7 @@ func (b *zzBackends) draw() *zzScript {
 			st.data = gosym.Bytes("chunk", 2)
 		}
 		sc.steps = append(sc.steps, st)
-		if kind == zzStepEOF || kind == zzStepChunkEOF || kind == zzStepStall || kind == zzStepReset {
+		if kind == zzStepEOF || kind == zzStepChunkEOF || kind == zzStepStall || kind == zzStepReset || kind == zzStepTruncated {
 			break
 		}
 	}
@@ -299,6 +303,9 @@ func (r *zzBody) Read(p []byte) (int, error) {
 	case zzStepReset:
 		r.end()
 		return 0, &net.OpError{Op: "read", Net: "tcp", Err: os.NewSyscallError("read", syscall.ECONNRESET)}
+	case zzStepTruncated:
+		r.end()
+		return 0, io.ErrUnexpectedEOF
 	default: // stall
 		w.mu.Lock()
 		r.a.stalled = true
@@ -515,7 +522,7 @@ func VerifEngine() {
 		}
 		if !answered.stalled && !aborted && answered.ended {
 			last := answered.script.steps[len(answered.script.steps)-1].kind
-			if last != zzStepReset {
+			if last != zzStepReset && last != zzStepTruncated {
 				gosym.Assert(err == nil, "C18: a backend that only pauses for less than the read timeout is not cut off and a completed stream is delivered whole")
 			}
 		}
@@ -542,7 +549,17 @@ func VerifEngine() {
 			}
 		}
 		ps, _ := svc.GetStats(context.Background())
-		clientOK := answered != nil && err == nil && !aborted && cl.status < 400
+		// the answering backend's response ended cleanly (not by stall, reset or truncation)
+		complete := false
+		if answered != nil {
+			complete = true
+			for _, st := range answered.script.steps {
+				if st.kind == zzStepStall || st.kind == zzStepReset || st.kind == zzStepTruncated {
+					complete = false
+				}
+			}
+		}
+		clientOK := answered != nil && complete && err == nil && !aborted && cl.status < 400
 		gosym.AssertKF(ps.TotalRequests == ps.SuccessfulRequests+ps.FailedRequests, "C19: proxy totals are conserved (total = successes + failures)", "KF-C19-1", int(ps.SuccessfulRequests+ps.FailedRequests) >= 2)
 		if !clientOK {
 			gosym.AssertKF(ps.SuccessfulRequests == 0, "C19: a request the client did not receive in full with a success status is not recorded as a success", "KF-C19-2",
